@@ -526,7 +526,11 @@ def run(ck):
     rm_lines = []
     for cs, d in rdescs:
         allsys = [s for f in d for s in systems_of.get((cs,) + f, [])]
-        rm_lines.append(("ranks4 " if cs == "HCP" else "ranks3 ") + " ".join(vec(b) + " " + vec(n) for b, n in allsys))
+        # NUMODIS identifies *collinear* index vectors (IDirection / IPlane operator==), the model identifies vectors
+        # equal up to sign (its stated domain: index vectors of equal length): hand the model the primitive
+        # representative of each vector, so that two families given at different scalings ((0,3,3) and (0,1,1)) are
+        # compared as the code compares them
+        rm_lines.append(("ranks4 " if cs == "HCP" else "ranks3 ") + " ".join(vec(prim(b)) + " " + vec(prim(n)) for b, n in allsys))
     rm = ck.run([driver], input="\n".join(rm_lines) + "\n", timeout=3000).stdout.splitlines()
     n_pairs = 0
     for j, (cs, d) in enumerate(rdescs):
